@@ -28,6 +28,8 @@ for d in sorted(glob.glob(f"{root}/seeded/C*-?")):
         }
         m = re.findall(r"^(C\d\d) (CAUGHT|missed)", fe, re.M)
         meta["first_evaluation"] = {"target_caught": any(c == prop and r == "CAUGHT" for c, r in m), "note": "harness as it was when the change arrived (before the additions the round led to)"}
+        # by-catch of the first evaluation (all 20 checks were run then for round 2; round 3 ran the target only)
+        meta["caught_by"] = {mm.group(1): mm.group(2).strip()[:200] for mm in re.finditer(r"^(C\d\d) CAUGHT\s+(.*)$", fe, re.M)}
     if os.path.exists(log):
         text = open(log).read()
         caught, missed, broken = {}, [], []
@@ -39,10 +41,15 @@ for d in sorted(glob.glob(f"{root}/seeded/C*-?")):
             m = re.match(r"^(C\d\d) broken", l)
             if m: broken.append(m.group(1))
         if caught or missed or broken:
-            meta["checks_run"] = f"tools/try_mutant.sh <patch> (all 20 checks, quick tier, seed 1) on a scratch worktree of /repo HEAD with the patch applied and a scratch copy of the committed harness ({head}) pointed at it"
-            meta["caught_by"] = caught
+            ran = sorted(set(caught) | set(missed) | set(broken))
+            meta["checks_run"] = f"final re-evaluation: tools/try_mutant.sh <patch> {' '.join(ran) if len(ran) < 20 else '(all 20 checks)'} (quick tier, seed 1) on a scratch worktree of /repo HEAD with the patch applied and a scratch copy of the committed harness ({head}) pointed at it; entries of caught_by for checks not re-run come from the earlier evaluation"
+            old = dict(meta.get("caught_by", {}))
+            for c in ran:
+                old.pop(c, None)
+            old.update(caught)
+            meta["caught_by"] = old
             meta["target_check_catches_it"] = prop in caught
-            meta["missed_by"] = missed
+            meta["missed_by"] = [c for c in missed]
             meta["broken"] = broken
     json.dump(meta, open(mp, "w"), indent=1)
     rows.append(meta)
